@@ -125,7 +125,7 @@ def main():
                 continue
             cands += (stmt_candidates if "--stmt" in args else candidates)(rel, open(os.path.join(root, f)).read())
     random.Random(seed).shuffle(cands)
-    cands = cands[:mx]
+    cands = cands[int(opt("--skip", "0")):mx]
     print(len(cands), "mutants")
     tally = {}
     with open(out, "a") as fo, cf.ThreadPoolExecutor(max_workers=4) as ex:
